@@ -424,7 +424,8 @@ class Folder:
                 scope[a.asname or a.name] = v
         elif t in (ast.FunctionDef, ast.AsyncFunctionDef):
             q = (local.get("__qualname__") + "." if local is not None and local.get("__qualname__") else mod.name + ".") + s.name
-            f = FuncRef(q, s, mod, closure=local if (local is not None and not local.get("__isclass__")) else None,
+            # a method's free variables resolve in the function that encloses its class (the class namespace itself is not a scope for it)
+            f = FuncRef(q, s, mod, closure=(local if not local.get("__isclass__") else local.get("__closure__")) if local is not None else None,
                         cls=local.get("__classref__") if local is not None else None)
             f.defaults = [self.ev_tolerant(d, ns, mod, local) for d in s.args.defaults]
             f.kw_defaults = [self.ev_tolerant(d, ns, mod, local) if d is not None else None for d in s.args.kw_defaults]
